@@ -94,6 +94,11 @@ def corpus():
             C.append({"k": "bodies", "a": fa, "b": fb, "pl": pl, "ob": 5 if pl == 2 else 0, "g": 0})
     for st in c17.enumerate_states("quick", 0)[0][::4]:
         C.append({"k": "mesh", "f": st["f"], "p": st["p"]})
+    # degenerate narrow-phase family of C19 (exact touching, coincident, zero-volume, needles): exception types and finiteness
+    from . import c19
+    for i, st in enumerate(c19.enumerate_states("quick", 0)[0]):
+        if st["op"] == 0 and (i % 7 == 0 or st["pl"] in (1, 8)) and (i % 3 == 0):
+            C.append({"k": "degenerate", "a": st["a"], "b": st["b"], "pl": st["pl"], "op": st["op"]})
     return C
 
 
@@ -242,6 +247,27 @@ def execute(call):
             i, w12, w21 = hc.contact_forces(hydro.make_body(call["a"], TA), hydro.make_body(call["b"], TB))
             return [bool(i), [float(x) for x in w12], [float(x) for x in w21]]
         out["forces"] = ("forces", _try(run))
+    elif k == "degenerate":
+        from . import c19
+        ia, ib = c19.ITEMS[call["a"]], c19.ITEMS[call["b"]]
+        oa, ob = c19.ORI_PAIRS[call["op"]]
+        A = c19.make(ia, oa, np.zeros(3))
+        B0 = c19.make(ib, ob, np.zeros(3))
+        hA = 0.5 * (A.aabb()[:, 1] - A.aabb()[:, 0])
+        hB = 0.5 * (B0.aabb()[:, 1] - B0.aabb()[:, 0])
+        cAB = 0.5 * (A.aabb()[:, 1] + A.aabb()[:, 0]) - 0.5 * (B0.aabb()[:, 1] + B0.aabb()[:, 0])
+        pl = c19.PLACEMENTS[call["pl"]]
+        off = {"coincident": np.zeros(3), "touch_x": cAB + np.array([hA[0] + hB[0], 0.0, 0.0]),
+               "tiny_gap_x": cAB + np.array([hA[0] + hB[0] + 1e-9, 0.0, 0.0]), "half_x": cAB + np.array([0.5 * (hA[0] + hB[0]), 0.0, 0.0]),
+               "apart_x": cAB + np.array([2.0 * (hA[0] + hB[0]) + 1.0, 0.0, 0.0]), "small_generic": max(1e-3, min(np.max(hA), np.max(hB))) * np.array([0.3, 0.2, 0.1]),
+               "diag_touch": cAB + (hA + hB), "touch_z": cAB + np.array([0.0, 0.0, hA[2] + hB[2]]), "same_object": np.zeros(3)}[pl]
+        B = A if pl == "same_object" else c19.make(ib, ob, off)
+        tb = ia[0] if pl == "same_object" else ib[0]
+        for name, fn in c19.entries(ia[0], tb):
+            def run(_fn=fn, _name=name):
+                r = _fn(A, B)
+                return "finite" if c19._finite_result(_name, r) else "nonfinite"
+            out[name] = ("exact", _try(run))
     elif k == "mesh":
         from . import c17
 
